@@ -109,6 +109,7 @@ type Slot struct {
 	So     Sort
 	Int    *intInfo // integer slots: the Go type's range
 	T      types.Type
+	Ref    bool // the slot holds an object identity (pointer, map, chan, slice backing, interface payload)
 }
 
 func (u *Unit) Layout(t types.Type) []Slot {
@@ -117,24 +118,26 @@ func (u *Unit) Layout(t types.Type) []Slot {
 	i64 := &intInfo{64, true}
 	switch classify(t) {
 	case KBool:
-		return []Slot{{"", SBool, nil, t}}
+		return []Slot{{"", SBool, nil, t, false}}
 	case KInt:
 		ii, _ := intInfoOf(t)
-		return []Slot{{"", u.sortOfInt(ii), &ii, t}}
+		return []Slot{{"", u.sortOfInt(ii), &ii, t, false}}
 	case KString:
-		return []Slot{{"", SStr, nil, t}}
+		return []Slot{{"", SStr, nil, t, false}}
 	case KFloat:
-		return []Slot{{"", SReal, nil, t}}
-	case KPtrStruct, KPtrCell, KMap, KChan, KFunc, KUnsafe:
-		return []Slot{{"", SInt, nil, t}}
+		return []Slot{{"", SReal, nil, t, false}}
+	case KPtrStruct, KPtrCell, KMap, KChan, KUnsafe:
+		return []Slot{{"", SInt, nil, t, true}}
+	case KFunc:
+		return []Slot{{"", SInt, nil, t, false}}
 	case KScalarNamed:
-		return []Slot{{"", SInt, nil, t}}
+		return []Slot{{"", SInt, nil, t, false}}
 	case KOpaque:
 		return nil
 	case KSlice:
-		return []Slot{{"#ptr", SInt, nil, t}, {"#off", is, i64, t}, {"#len", is, i64, t}, {"#cap", is, i64, t}}
+		return []Slot{{"#ptr", SInt, nil, t, true}, {"#off", is, i64, t, false}, {"#len", is, i64, t, false}, {"#cap", is, i64, t, false}}
 	case KIface:
-		return []Slot{{"#tag", SInt, nil, t}, {"#val", SInt, nil, t}}
+		return []Slot{{"#tag", SInt, nil, t, false}, {"#val", SInt, nil, t, true}}
 	case KStruct:
 		st := t.Underlying().(*types.Struct)
 		var out []Slot
